@@ -22,6 +22,7 @@ pub fn dev_fail(entry: Entry) -> Vec<Act> {
         v.push(sign_act(1, Entry::Bytes, Cb::Reject, AuxMode::Fresh));
         v.push(sign_act(0, Entry::Bytes, Cb::Reject, AuxMode::Valid));
         v.push(sign_act(0, Entry::Bytes, Cb::RejectPersisted, AuxMode::None));
+        v.push(sign_act(0, Entry::Bytes, Cb::RejectOnce, AuxMode::None));
     }
     for k in [Dmg::Truncated, Dmg::Extended, Dmg::BadParam, Dmg::CounterAtLifetime, Dmg::CounterMax, Dmg::Wiped, Dmg::Empty] {
         v.push(Act::Damaged { kind: k, entry });
@@ -321,6 +322,9 @@ pub fn run_c03(ctx: &Ctx) -> (&'static str, Map<String, Value>) {
         // the key was written, then the storage layer reported failure: no signature, but the
         // history continues from the advanced key
         sign_act(1, Entry::Bytes, Cb::RejectPersisted, AuxMode::None),
+        // a transient storage error: the first invocation of the callback fails, a second one (which a
+        // correct implementation never makes) would succeed
+        sign_act(1, Entry::Bytes, Cb::RejectOnce, AuxMode::None),
     ];
     let mut cfgs = vec![];
     cfgs.push(cfg(ctx, Hid::S32, vec![hw(2, 4), hw(2, 4)], 0, None, 2, devs.clone()));
